@@ -20,7 +20,11 @@ CLAIMED = {
              "pruning bookkeeping and root updates (opSetDel), prune on or off, no set/delete ever raises (world_progress), the tree "
              "is the tree-level history (world_tree) and get through the database returns the map model's value and never raises "
              "(world_get), under the per-step run-level no-collision predicates. Batched application = flatten is C05. "
-             "Tie: get() after every operation of generated histories (4 configurations) equals the model's.",
+             "Raw level: the statement-by-statement transcription of set/delete end to end (HexRaw.rawOp: root fetch, _set/_delete over "
+             "raw nodes and the database, root store) threaded over a whole history returns the executor's root hashes and a database "
+             "answering every lookup alike (Raw.history_is_world_run), so the above are theorems about that transcription. "
+             "Tie: get() after every operation of generated histories (4 configurations) equals the model's; the raw-level run is "
+             "driven alongside fresh non-pruning tries (root after every op, final database, lookups).",
         technique="Lean 4 proof (induction over histories on a tree model) + correspondence check of model vs code",
         design_ref="6/C01"),
     "C02": dict(
@@ -32,7 +36,9 @@ CLAIMED = {
              "oracle in the harness. Conformance proper is proved: the raw node structure of every reachable trie IS the Yellow Paper's "
              "c(J,i)/n(J,i) construction applied to its contents and the root hash is TRIE(contents), for every H "
              "(root_is_yellow_paper_trie, node_is_yellow_paper_c, ref_is_yellow_paper_n; HP = Yellow Paper HP is C16); what remains "
-             "unproved is only that the model's rlp/Keccak-256 are the real ones (external vectors). Tie: root after every operation.",
+             "unproved is only that the model's rlp/Keccak-256 are the real ones (external vectors). The raw-level transcription of "
+             "set/delete run over any history returns TRIE(final contents) (Raw.history_root_is_yellow_paper). Tie: root after every "
+             "operation, also against the raw-level run (own root and database) for fresh non-pruning tries.",
         technique="Lean 4 proof (canonical-form uniqueness) + correspondence check with external test vectors",
         design_ref="6/C02"),
     "C05": dict(
